@@ -1337,6 +1337,11 @@ func (v *FnVC) enterLoop(fr *frame, li *loopInfo, b *ssa.BasicBlock, st *State, 
 		v.havocEmits(st, fm, top)
 		for k := range st.ghost {
 			if strings.HasPrefix(k, "eh#") {
+				// the function's own emissions of a format change in the loop only if some call of the body may
+				// print that format (own statements and inlined closures are among those calls)
+				if !top && !fm[strings.TrimPrefix(k, "eh#")] {
+					continue
+				}
 				old := st.ghost[k]
 				n := v.sc.Fresh("eh", SInt)
 				v.sc.Assert(Le(old, n))
